@@ -11,7 +11,7 @@ Traces == JsonDeserialize(IOEnv.TRACE_FILE)
 VARIABLES tid, pos, why
 tvars == <<wvars, tid, pos, why>>
 
-TFeats == {"deform", "area_um", "image", "mask", "contour", "trace", "fl1_max"}
+TFeats == {"deform", "area_um", "image", "mask", "contour", "trace", "fl1_max", "index"}
 TLogs == {"log", "log2"}
 TModes == {"append", "replace", "reset"}
 
@@ -27,7 +27,9 @@ Pairs(s) == [i \in 1..Len(s) |-> <<s[i][1], s[i][2]>>]
 Mismatch(e) ==
     IF e.a = "store" /\ e.first # nextTok THEN "driver-token-mismatch"
     ELSE IF e.a # "close" THEN "ok"
-    ELSE IF \E f \in Feats : e.content[f] # content'[f] THEN "feature-content"
+    \* (the index holds an enumeration, not tokens: its length and 1..N are logged)
+    ELSE IF \E f \in Feats \ {"index"} : e.content[f] # content'[f] THEN "feature-content"
+    ELSE IF e.indexlen # Len(content'["index"]) THEN "index-length"
     ELSE IF \E l \in LogNames : Pairs(e.logs[l]) # logs'[l] THEN "log-content"
     ELSE IF e.count # e.stored THEN "event-count"
     ELSE IF ~e.indexok THEN "index"
